@@ -167,6 +167,10 @@ func (c *conn) sread() (f *Frag, err error) {
 		return nil, err
 	}
 
+	if f.Discard {
+		return nil, codec.Continue
+	}
+
 	if f.Owner == nil {
 		return f, nil
 	}
